@@ -169,6 +169,15 @@ def obligations(pid, log):
 
 # ----------------------------------------------------------------------------- correspondence
 
+def big_stack():
+    """the extracted model recurses on lists as long as the input (64 KiB strings, 1 MiB paddings)"""
+    import resource
+    try:
+        resource.setrlimit(resource.RLIMIT_STACK, (resource.RLIM_INFINITY, resource.RLIM_INFINITY))
+    except (ValueError, OSError):
+        pass
+
+
 def run_model(cases):
     """evaluate the extracted model on the case lines, sharded over all cores"""
     if not cases:
@@ -177,7 +186,7 @@ def run_model(cases):
     shards = [cases[i::n] for i in range(n)]
     procs = []
     for sh_ in shards:
-        p = subprocess.Popen([os.path.join(BIN, 'model_runner')], stdin=subprocess.PIPE, stdout=subprocess.PIPE, text=True)
+        p = subprocess.Popen([os.path.join(BIN, 'model_runner')], stdin=subprocess.PIPE, stdout=subprocess.PIPE, text=True, preexec_fn=big_stack)
         procs.append(p)
     outs = []
     # feed concurrently via threads to avoid pipe deadlocks
@@ -328,6 +337,7 @@ def correspondence(pid, streams, seed, tier, log, extra_cases=None):
     k = 24 if tier == 'quick' else 150
     step = max(1, len(cases) // k)
     idx = list(range(0, len(cases), step))[:k]
+    idx = [j for j in idx if len(cases[j]) < 20000]    # very long cases are left to the extracted runner
     vm = run_vm([cases[j] for j in idx], log)
     vm_checked, vm_bad = 0, []
     if vm is None or len(vm) != len(idx):
@@ -356,6 +366,7 @@ PROPS = {
     'C06': {'streams': [('c06', 700, 20000)]},
     'C07': {'streams': [('c07', 3000, 200000)]},
     'C08': {'streams': [('c08', 300, 10000)]},
+    'C10': {'streams': [('c10', 1500, 40000)]},
     'C13': {'streams': [('c13', 900, 30000)]},
     'C14': {'streams': [('c14', 1500, 50000)]},
     'C15': {'streams': [('c15', 1500, 60000)]},
